@@ -614,6 +614,50 @@ def run(check, repo: Repo) -> None:
         check.violated("C20-R3", key_, f"under `{unparse(guards_[0].test)[:70]}` the interval is left as it was: a ManualInterval with a missing limit stays unfrozen, so the next array "
                        f"it is applied to re-derives that limit — vmin/vmax no longer map to 0/1 and equal values map differently from call to call", mod.line(guards_[0]), definite=True)
 
+    # ---- R4c state derived at construction vs later writers of its sources (coupled) ------------------------------------------------------------
+    # A non-frozen dataclass may pre-compute a private value in __post_init__ from its fields and read it in its methods: sound while nobody assigns those fields on an
+    # existing instance.  Together with a writer elsewhere in the module (`<obj>.vmin = …` on an instance of that class) the methods keep using the stale value.
+    for cname_, cls_ in classes.items():
+        if _is_frozen(cls_):
+            continue
+        pi_ = next((f_ for f_ in cls_.body if isinstance(f_, ast.FunctionDef) and f_.name == "__post_init__"), None)
+        if pi_ is None:
+            continue
+        fields_ = set(_fields(cls_))
+        derived = {}
+        for n_ in ast.walk(pi_):
+            if isinstance(n_, ast.Assign):
+                for t_ in n_.targets:
+                    if isinstance(t_, ast.Attribute) and dotted(t_.value) == "self" and t_.attr not in fields_:
+                        srcs = {x.attr for x in ast.walk(n_.value) if isinstance(x, ast.Attribute) and dotted(x.value) == "self" and x.attr in fields_}
+                        seen_l = {x.id for x in ast.walk(n_.value) if isinstance(x, ast.Name)}
+                        for nm_ in seen_l:
+                            for d_ in definitions(pi_, nm_):
+                                if isinstance(d_, ast.AST):
+                                    srcs |= {x.attr for x in ast.walk(d_) if isinstance(x, ast.Attribute) and dotted(x.value) == "self" and x.attr in fields_}
+                        if srcs:
+                            derived[t_.attr] = srcs
+        read_elsewhere = {a_ for a_ in derived for f_ in cls_.body if isinstance(f_, ast.FunctionDef) and f_.name != "__post_init__"
+                          for x in ast.walk(f_) if isinstance(x, ast.Attribute) and dotted(x.value) == "self" and x.attr == a_ and isinstance(x.ctx, ast.Load)}
+        for a_ in sorted(read_elsewhere):
+            writers_ = []
+            for n_ in ast.walk(mod.tree):
+                if isinstance(n_, ast.Assign):
+                    tg_ = [e_ for t_ in n_.targets for e_ in (t_.elts if isinstance(t_, (ast.Tuple, ast.List)) else [t_])]
+                    for t_ in tg_:
+                        if isinstance(t_, ast.Attribute) and t_.attr in derived[a_] and dotted(t_.value) not in (None, "self") and isinstance(t_.value, ast.Attribute):
+                            # `<something>.interval.vmin = …`: a field of a held instance is assigned — is that instance tested to be of this class nearby?
+                            fn_ = next((f_ for f_ in ast.walk(mod.tree) if isinstance(f_, ast.FunctionDef) and any(x is n_ for x in ast.walk(f_))), None)
+                            if fn_ is not None and any(isinstance(c_, ast.Call) and call_name(c_) == "isinstance" and len(c_.args) == 2 and cname_ in unparse(c_.args[1]) for c_ in ast.walk(fn_)):
+                                writers_.append((fn_.name, n_))
+            key_ = f"{cname_}: `{a_}` (computed once in __post_init__ from {sorted(derived[a_])}) is never stale — no code assigns those fields on an existing instance"
+            if writers_:
+                check.violated("C20-R4", key_, f"{writers_[0][0]} assigns `{unparse(writers_[0][1].targets[0])[:50]}` on an existing {cname_} while its methods read the value derived at "
+                               f"construction: after the limits are adjusted the interval declares the new limits but maps with the old ones — vmin/vmax no longer go to 0/1",
+                               mod.line(writers_[0][1]), definite=True)
+            else:
+                check.holds("C20-R4", key_, "", mod.line(pi_))
+
     # ---- R4b derived accessors of the (mutable) stretch/interval dataclasses are recomputed on every access ----------------------------------
     n_acc = 0
     for cname_, cls_ in classes.items():
